@@ -1,6 +1,6 @@
 (* C13 - validation leaves the request readable; defaults are added exactly once. *)
 From KV Require Import Model.Base Model.Json Model.Schema Model.Request Model.Lookup Model.ParamCodec Model.Defaults
-     Spec.ParamSpec Proofs.C05Proofs Proofs.C13Proofs.
+     Spec.ParamSpec Proofs.C05Proofs Proofs.C13Proofs Proofs.C13Inject.
 Local Open Scope list_scope.
 
 (* whatever the security requirements do (undeclared schemes, callbacks that read the body, any
@@ -28,6 +28,33 @@ Theorem C13_defaults_idempotent :
   forall roOff props l, add_defaults roOff props (add_defaults roOff props l) = add_defaults roOff props l.
 Proof. exact add_defaults_idempotent. Qed.
 Print Assumptions C13_defaults_idempotent.
+
+(* all depths: for every schema without allOf (properties, items, additionalProperties nested to any
+   depth) and every value, a second injection pass is the identity *)
+Theorem C13_inject_idempotent_without_allof :
+  forall roOff s, noall s = true -> forall v, inject roOff s (inject roOff s v) = inject roOff s v.
+Proof. exact inject_idempotent. Qed.
+Print Assumptions C13_inject_idempotent_without_allof.
+
+(* with allOf it is not: the members are visited before the schema's own defaults are filled in, so
+   what they would add below a member that the schema itself defaults appears on the second pass
+   only ("a second validation changes nothing further" fails - a finding on the real code:
+   {allOf:[{properties:{p:{properties:{q:{default:1}}}}}], properties:{p:{default:{}}}} against {}) *)
+Definition objC (d : option json) : score :=
+  mkCoreD (Some ["object"]) [] false false false false "" false false false None None None 0 None "" 0 None [] 0 None None d.
+Definition intD : schema :=
+  Sch (mkCoreD (Some ["integer"]) [] false false false false "" false false false None None None 0 None "" 0 None [] 0 None None (Some (JNum 1))) None [] [] [] None [] None.
+Definition inner : schema := Sch (objC None) None [] [] [] None [("p", Sch (objC None) None [] [] [] None [("q", intD)] None)] None.
+Definition outer : schema := Sch (objC None) None [] [] [inner] None [("p", Sch (objC (Some (JObj []))) None [] [] [] None [] None)] None.
+Theorem C13_refuted_allof_sees_own_default_later :
+  inject false outer (JObj []) = JObj [("p", JObj [])] /\
+  inject false outer (inject false outer (JObj [])) = JObj [("p", JObj [("q", JNum 1)])].
+Proof. vm_compute. split; reflexivity. Qed.
+(* non-vacuity of the positive theorem: a nested schema without allOf on which injection does work *)
+Example C13_inject_example :
+  let s := Sch (objC None) None [] [] [] None [("p", Sch (objC (Some (JObj []))) None [] [] [] None [("q", intD)] None)] None in
+  noall s = true /\ inject false s (JObj []) = JObj [("p", JObj [("q", JNum 1)])].
+Proof. vm_compute. split; reflexivity. Qed.
 
 (* parameters: a scalar default written into an empty query / header / cookie is decoded back from
    exactly the text that was written (so the second validation sees the parameter as present) *)
